@@ -318,7 +318,13 @@ func report(c *Ctx, cases []*Case, res []Result) {
 		seen[v.Case] = true
 		out = append(out, map[string]string{"case": v.Case, "what": v.What, "detail": v.Detail, "family": v.Family, "actual": v.Actual, "json": v.JSON})
 	}
-	sort.SliceStable(out, func(i, j int) bool { return out[i]["case"] < out[j]["case"] })
+	// shortest cases first: they are the most readable failing inputs
+	sort.SliceStable(out, func(i, j int) bool {
+		if len(out[i]["case"]) != len(out[j]["case"]) {
+			return len(out[i]["case"]) < len(out[j]["case"])
+		}
+		return out[i]["case"] < out[j]["case"]
+	})
 	c.Stats["oracle_violations"] = out
 	c.Stats["oracle_failing_cases"] = len(viols)
 	c.Stats["family_hits"] = fam
